@@ -1392,6 +1392,9 @@ class ContactHandler(Messenger, dbus.service.Object):
         if flags & messages.TransferSegment.Flag.END:
             if not self._do_send_ack_final:
                 raise RejectError(messages.RejectMsg.Reason.UNEXPECTED)
+            if item not in self._tx_pend_ack:
+                # its last segment has not been sent yet
+                raise RejectError(messages.RejectMsg.Reason.UNEXPECTED)
 
             self.send_bundle_finished(str(item.transfer_id), length, 'success')
             self._tx_pend_ack.remove(item)
